@@ -3,7 +3,7 @@
 (* Trace specification of the lunar family: C06 (year structure, month     *)
 (* navigation), C01 (civil <-> lunar bijection), C03 (solar terms), ...    *)
 (***************************************************************************)
-EXTENDS Civil, LunarTable, Terms, GanZhi, TraceKit
+EXTENDS Civil, LunarTable, Terms, GanZhi, TraceKit   \* (Vocab comes in through Terms)
 
 tvars == << l, rej >>
 SeqSet(s) == { s[i] : i \in 1..Len(s) }
@@ -40,6 +40,23 @@ C06Checks(e) ==
                                   /\ << x[10], x[11], x[12], x[13] >> = MonthRow(Y, y, x[1])))))
        + (IF pairNext THEN Chk("C06.neighbours.agree", << y, y + 1 >>, Agree(T, TN) /\ Contiguous(TN) /\ Len(TN) = 15) ELSE 0)
        + (IF pairPrev THEN Chk("C06.neighbours.agree", << y - 1, y >>, Agree(TP, T)) ELSE 0)
+       \* extension (outside C06): three-cycle / nine-period names and the 'how many dragons' year omens
+       + (IF Has(e, "yr") /\ HasMonth(Y, y, 1)
+            THEN LET d1 == DayIdx(MJ(MonthRow(Y, y, 1)))             \* pillar of the first day of month 1
+                     byZ(z) == Numeral12[((z - (d1 % 12)) % 12) + 1]    \* ordinal of the first day with branch z
+                     byG(g) == Numeral12[((g - (d1 % 10)) % 10) + 1]
+                     cyc == (y - 1864) \div 60
+                 IN Chk("EXT.lunarYear.yuan-yun", << y, e.yr[1], e.yr[2] >>,
+                        /\ e.yr[1] = << "上", "中", "下" >>[(cyc % 3) + 1] \o "元"
+                        /\ e.yr[2] = StarNumber[((((y - 1864) \div 20) % 9)) + 1] \o "运"
+                        /\ e.yr[3] = GanZhiName(YearIdx(y)))
+                    + Chk("EXT.lunarYear.omens", << y, d1, e.yr >>,
+                          /\ e.yr[4] = byZ(0) \o "鼠偷粮" /\ e.yr[5] = "草子" \o byZ(0) \o "分" /\ e.yr[6] = byZ(1) \o "牛耕田"
+                          /\ e.yr[7] = "花收" \o byZ(3) \o "分" /\ e.yr[8] = byZ(4) \o "龙治水" /\ e.yr[9] = byZ(6) \o "马驮谷"
+                          /\ e.yr[10] = byZ(9) \o "鸡抢米" /\ e.yr[11] = byZ(9) \o "姑看蚕" /\ e.yr[12] = byZ(11) \o "屠共猪"
+                          /\ e.yr[13] = "甲田" \o byG(0) \o "分" /\ e.yr[14] = byG(2) \o "人分饼" /\ e.yr[15] = byG(7) \o "日得金"
+                          /\ e.yr[16] = byZ(2) \o "人" \o byG(2) \o "丙" /\ e.yr[17] = byZ(2) \o "人" \o byG(3) \o "锄")
+            ELSE 0)
        \* New Year's Eve
        + (IF ~pairNext THEN 0
           ELSE IF e.eve.p # 0 THEN Chk("C06.eve.panic", y, FALSE)
@@ -256,6 +273,13 @@ C05Checks(e) ==
                              GanZhiName(yNew), GanZhiName(mDay), GanZhiName(dPlain), GanZhiName(hIdx),
                              ShengXiao[(yNew % 12) + 1], ShengXiao[(yDay % 12) + 1], ShengXiao[(yIns % 12) + 1],
                              ShengXiao[(mDay % 12) + 1], ShengXiao[(dPlain % 12) + 1], ShengXiao[(hIdx % 12) + 1] >>)
+            \* extension (outside C05): the printed bounds of the two-hour slot: hh:00 .. hh+1:59 (00:00..00:59 and 23:00..23:59 for the split rat slot)
+            + (IF Has(q, "hm")
+                 THEN LET h == q.at[4]
+                          lo == IF h < 1 THEN 0 ELSE IF h > 22 THEN 23 ELSE IF h % 2 = 0 THEN h - 1 ELSE h
+                          hi == IF h < 1 THEN 0 ELSE IF h > 22 THEN 23 ELSE lo + 1
+                      IN Chk("EXT.lunarTime.slot-bounds", << k, q.hm >>, q.hm = << Fmt2(lo) \o << 58, 48, 48 >>, Fmt2(hi) \o << 58, 53, 57 >> >>)
+                 ELSE 0)
             + Chk("C05.eightChar.sect1", << k, q.ec1 >>, q.ec1 = << GanZhiName(yIns), GanZhiName(mIns), GanZhiName(dEarly), GanZhiName(hIdx) >>)
             + Chk("C05.eightChar.sect2", << k, q.ec2 >>, q.ec2 = << GanZhiName(yIns), GanZhiName(mIns), GanZhiName(dLate), GanZhiName(hIdx) >>))
 
